@@ -206,8 +206,13 @@ def run_batch(batch, codecs, scripts, smalls, nrandom, rng, out):
                 cap = HARD_A + HARD_B * (len(data) + 1) * (depth + 1)
                 rec = {'k': kind, 'n': len(data), 'st': 'ok', 'cls': '', 'site': ''}
 
+                peak = [None]
+
                 def call():
-                    return budget.run(lambda: spec.decode(name, data), cap)
+                    try:
+                        return budget.run(lambda: spec.decode(name, data), cap)
+                    finally:                      # the peak of the call itself, not of classifying its outcome
+                        peak[0] = tracemalloc.get_traced_memory()[1]
                 tracemalloc.reset_peak()
                 mem0 = tracemalloc.get_traced_memory()[0]
                 try:
@@ -225,7 +230,20 @@ def run_batch(batch, codecs, scripts, smalls, nrandom, rng, out):
                     rec['st'] = 'budget'
                     rec['site'] = budget.site
                 rec['ev'] = budget.n
-                rec['mem'] = min(tracemalloc.get_traced_memory()[1] - mem0, 2000000000)
+                rec['mem'] = min((peak[0] if peak[0] is not None else tracemalloc.get_traced_memory()[1]) - mem0, 2000000000)
+                if rec['mem'] > 300000 and rec['st'] not in ('budget', 'timeout'):
+                    # one-off allocations (a module imported, a regular expression compiled, a cache filled on first use)
+                    # are not proportional to anything: measure again and keep the smaller peak
+                    budget_off()
+                    tracemalloc.reset_peak()
+                    m0 = tracemalloc.get_traced_memory()[0]
+                    peak[0] = None
+                    try:
+                        dc.guarded(call)
+                    except BaseException:  # noqa
+                        pass
+                    again = (peak[0] if peak[0] is not None else tracemalloc.get_traced_memory()[1]) - m0
+                    rec['mem'] = max(0, min(rec['mem'], again))
                 if rec['st'] in ('budget', 'timeout') or ((rec['ev'] > 5000 or rec['mem'] > 500000) and len(obs) < 4000):
                     rec['hex'] = data[:64].hex()
                 obs.append(rec)
